@@ -121,7 +121,7 @@ pub fn check(bytes: &[u8], _ctx: &Ctx) -> Verdict {
     let mut differs_from_uniform = false;
     let mut matched = false;
     for tie in [TieRule::LastMaxFirstMin, TieRule::FirstMaxLastMin, TieRule::Uniform] {
-        let guard = match reference_guard(&prep, case.method, case.params, case.iters, &case.decision, case.dseed, true, tie) {
+        let guard = match reference_guard(&prep, case.method, case.params, case.iters, &case.decision, case.dseed, false, tie) {
             Ok(g) => g,
             Err(why) => {
                 if tried.is_empty() {
@@ -164,6 +164,22 @@ pub fn check(bytes: &[u8], _ctx: &Ctx) -> Verdict {
         }
     }
     if !matched {
+        if _ctx.strict {
+            // replay mode: show where the two trajectories part
+            for t in 1..=case.iters {
+                if let Ok(g) = reference_guard(&prep, case.method, case.params, t, &case.decision, case.dseed, false, TieRule::LastMaxFirstMin) {
+                    if let Ok(lib) = run_lib(g.t_eff, Some(glue::lib_params(&case.params))) {
+                        let want = ref_profile(&prep.rg, &g.result.avg);
+                        let (d, at) = max_diff(&want, &lib.prof);
+                        println!("  t={} t_eff={} fragile_at={:?} ambiguous_at={:?} diff={:e} at {}", t, g.t_eff, g.result.fragile_at, g.result.ambiguous_at, d, at);
+                        if std::env::var("VERIF_DUMP_REGRETS").is_ok() {
+                            println!("    ref cum regrets: {:?}", g.result.cum_regret);
+                            println!("    ref current: {:?}", g.result.current);
+                        }
+                    }
+                }
+            }
+        }
         return Verdict::fail(format!("C08/iterates-differ/{}", method_name(case.method)), last_msg);
     }
     let nontrivial = t_used >= 2 && info.num_multi() >= 2 && differs_from_uniform;
@@ -199,8 +215,8 @@ pub fn prop() -> Prop {
         describe,
         rule: "small and medium generated games (mostly generic real payoffs) x {Full, Sampled, External} x parameters (five presets, tuples with exponents in {+-inf, 0, [-5,5]}, gamma in {0, (0,8]}, weight in {0, +-inf, [-3,3]}) x T in 0..50 x decision functions; oracle: an independent reference implementation of discounted CFR on the abstract tree fed with the same sampling decisions; strategies within 1e-6 at every infoset up to the last iteration the conditioning guard admits (branch margins 1e-9, perturbation run, order-of-discounting ambiguity, exact ties resolved by any consistent rule); preset constants compared with the documented tuples; None == dcfr bitwise. Non-trivial = T >= 2, N >= 2 and the reference result differs from uniform by > 1e-3; distinct by (tree, method, parameters, T, decisions).",
         max_len: 900,
-        cases_quick: 12_000,
-        cases_thorough: 400_000,
+        cases_quick: 400_000,
+        cases_thorough: 8_000_000,
         assumptions: &[
             "the reference model is trusted as the specification; it is itself tested against the repository's pinned example and the CFR bound in its self-test",
             "the order 'match, then discount' is not pinned by the documentation: iterations after the two orders diverge are not compared",
